@@ -122,7 +122,7 @@ def make_calls(rng, ps):
 def main():
     R = vf.Report(PID)
     proved = R.proof_step()
-    n = 4000 if R.thorough else 400
+    n = 60000 if R.thorough else 400
     cases = []
     fixed = [
         ([["x", "pk", False, "arr"], ["T0", "pk", False, "arr"], ["T1", "pk", False, "arr"]], "anneal", "def"),
